@@ -784,6 +784,9 @@ func newRunner(head []string) runner {
 	if len(head) >= 3 && head[0] == "case" && strings.HasPrefix(head[2], "misc") {
 		return newMiscRun()
 	}
+	if len(head) >= 3 && head[0] == "case" && strings.HasPrefix(head[2], "inf") {
+		return newInfRun()
+	}
 	if len(head) >= 3 && head[0] == "case" && strings.HasPrefix(head[2], "idxc") {
 		return newIdxcRun()
 	}
